@@ -20,7 +20,8 @@ def name_of(cfg):
             f"{cfg.get('bias', True)}/kl={k['kl_clip']}/cap="
             f"{k.get('allreduce_bucket_cap_mb', 25.0)}/F="
             f"{k.get('factor_update_steps', 1)}/I="
-            f"{k.get('inv_update_steps', 1)}/steps={len(cfg['history'])}")
+            f"{k.get('inv_update_steps', 1)}/damp={k.get('damping')}/scale="
+            f"{cfg.get('scale')}/steps={len(cfg['history'])}")
 
 
 def oracle_for(cfg, stats=None):
@@ -236,6 +237,21 @@ def configs(thorough, seed):
              'gmodel': gm, 'history': [['train']] * 3}
         if (len(out) + seed) % 2:
             c['seq'] = 3   # (batch, seq, hidden) activations
+        out.append(c)
+    # damping that changes between inverse updates, and an AMP loss scale
+    for (dp, mp), bias, extra in itertools.product(
+            [(1, 1), (2, 1), (1, 2), (2, 2)], (True, False),
+            ('damping', 'scale')):
+        kk = dict(damping=0.05, factor_decay=0.5, kl_clip=1e30, lr=0.1,
+                  allreduce_bucket_cap_mb=25.0, factor_update_steps=1,
+                  inv_update_steps=1)
+        c = {'dp': dp, 'mp': mp, 'bias': bias, 'batch': 2, 'seed': seed,
+             'kfac': kk, 'loss_mult': 4.0, 'gmodel': 'gpt2l',
+             'history': [['train']] * 4}
+        if extra == 'damping':
+            kk.update(damping=['cyc', [0.05, 0.2, 0.1]], inv_update_steps=2)
+        else:
+            c['scale'] = 8.0
         out.append(c)
     return out
 
